@@ -278,8 +278,9 @@ func (w *c04World) applyCtrlR(s int) (*explore.Fail, *wire.StopSendingFrame) {
 				return explore.Failf(fmt.Sprintf("rcv-max-stream-data-decreased:%s:value=%s", hist, val),
 					"stream %d: MAX_STREAM_DATA frame created with limit %d after limit %d had been advertised (consumed %d, window %d, final size %d)", c04IDs[s], v, w.advS[s], w.read[s], w.winS(s), w.final[s]), nil
 			}
-			if v != w.read[s]+w.winS(s) {
-				return explore.Failf("rcv-max-stream-data-not-consumed-plus-window", "stream %d: MAX_STREAM_DATA %d, but the application consumed %d and the window is %d", c04IDs[s], v, w.read[s], w.winS(s)), nil
+			// "current window": the size before or after the auto-tuning step of this very update
+			if v != w.read[s]+w.winS(s) && v != w.read[s]+oldWin {
+				return explore.Failf("rcv-max-stream-data-not-consumed-plus-window", "stream %d: MAX_STREAM_DATA %d, but the application consumed %d and the window is %d (%d before this update)", c04IDs[s], v, w.read[s], w.winS(s), oldWin), nil
 			}
 			w.outcome += fmt.Sprintf(" MAX_STREAM_DATA(win=%d)", w.winS(s)/w.cfg.cell)
 			if v == w.advS[s] {
@@ -320,7 +321,8 @@ func (w *c04World) applyConnUpdate() *explore.Fail {
 	}
 	lo0, hi0 := w.creditRange(0)
 	lo1, hi1 := w.creditRange(1)
-	if c := v - w.winC(); c < lo0+lo1 || c > hi0+hi1 {
+	in := func(c int) bool { return c >= lo0+lo1 && c <= hi0+hi1 }
+	if !in(v-w.winC()) && !in(v-oldWin) {
 		return explore.Failf("rcv-max-data-not-consumed-plus-window", "MAX_DATA %d with window %d, but the application consumed/abandoned %d..%d bytes", v, w.winC(), lo0+lo1, hi0+hi1)
 	}
 	w.outcome = fmt.Sprintf("maxdata MAX_DATA(win=%d)", w.winC()/w.cfg.cell)
